@@ -324,21 +324,21 @@ def run_property(pid, tier="quick", seed=0, update_baseline=False, jobs=None):
         if o["status"] == "proved":
             n_proved += 1
             continue
-        kf = [k for k in known if k.get("obligation") == o["name"]]
+        kf = [k for k in known if k.get("obligation") in (o["name"], _base(o["name"]))]
         # try to replay the counter-model on the real code
         replay = o.get("replay")
         if kf:
             known_hit.append(o["name"])
             lines.append(f"KNOWN-FINDING: property={pid} {kf[0].get('what', o['name'])}")
             continue
-        was_proved = baseline.get(o["name"]) == "proved"
+        was_proved = baseline.get(_base(o["name"])) == "proved"
         confirmed = bool(replay and replay.get("violated"))
         if confirmed or was_proved:
             path = os.path.join(replay_dir, _safe(o["name"]) + ".json")
             json.dump(dict(property=pid, obligation=o["name"], function=r.get("func"), file=r.get("file"), lines=r.get("lines"),
                            sha256=r.get("sha256"), status=o["status"], backend=o["backend"], solver_model=o.get("model"),
                            reason=o.get("reason"), goal=o.get("goal"), replay=replay, smt2=o.get("smt2"),
-                           baseline_status=baseline.get(o["name"])), open(path, "w"), indent=1, default=str)
+                           baseline_status=baseline.get(_base(o["name"]))), open(path, "w"), indent=1, default=str)
             tail = "" if confirmed else " no-failing-input-found"
             violations.append((o["name"], path))
             lines.append(f"VIOLATION property={pid} replay={os.path.relpath(path, ROOT)} obligation={o['name']}{tail}")
@@ -346,7 +346,7 @@ def run_property(pid, tier="quick", seed=0, update_baseline=False, jobs=None):
             undecided.append(f"obligation {o['name']}: {o['status']} (not in baseline as proved)")
 
     # obligations that disappeared relative to baseline
-    names = {o["name"] for _, o in all_obs}
+    names = {_base(o["name"]) for _, o in all_obs}
     missing = [n for n, st in baseline.items() if st == "proved" and n not in names]
     errored_funcs = {r["func"] for r in results if r["error"]}
 
@@ -416,7 +416,11 @@ def run_property(pid, tier="quick", seed=0, update_baseline=False, jobs=None):
     if update_baseline:
         path = os.path.join(ROOT, "baseline", "obligations.json")
         allb = json.load(open(path)) if os.path.exists(path) else {}
-        allb[pid] = {o["name"]: o["status"] for _, o in all_obs}
+        agg = {}
+        for _, o in all_obs:
+            b = _base(o["name"])
+            agg[b] = "proved" if (agg.get(b, "proved") == "proved" and o["status"] == "proved") else "not-proved"
+        allb[pid] = agg
         json.dump(allb, open(path, "w"), indent=1, sort_keys=True)
 
     for ln in lines:
@@ -436,6 +440,11 @@ def run_property(pid, tier="quick", seed=0, update_baseline=False, jobs=None):
             print(f"UNDECIDED property={pid} reason=baseline obligation no longer generated: {m}")
         return 2
     return 0
+
+
+def _base(name):
+    """Obligation name without the per-path ordinal (#k): path enumeration order is not part of the identity."""
+    return name.split("#")[0]
 
 
 def _safe(s):
